@@ -14,6 +14,7 @@ from vf.engine.driver import Harness
 from vf.engine import core
 
 PID = '000001'
+NPERM = 14
 
 
 # ------------------------------------------------------------------------------------------------
@@ -36,11 +37,17 @@ def all_configs(tier):
                    bound='2 assets (weights 0.6/0.4), 8 business days, weekly WED, long-only 5% buffer, 0.1% fee'))
     c.append(_base('s2_latestart', assets=['EQ:A', 'EQ:B'], weights={'EQ:A': 0.5, 'EQ:B': 0.5}, first_bar={'EQ:B': 4}, weight=1500, chunk=4,
                    bound='2 assets, the bars of B start on day 4 (after the first rebalance on day 2): the price of B is unavailable when first sized'))
+    c.append(_base('s2_dynamic_signals', assets=['EQ:A', 'EQ:B'], universe='dynamic', entries={'EQ:A': '2020-01-07 00:00', 'EQ:B': '2020-01-07 00:00'},
+                   alpha='sma_trend', nd=6, weight=1800, chunk=4,
+                   bound='2 assets entering a dynamic universe together on day 1, SMA(2) signals collection, trend-following alpha (long above the average), weekly WED, 6 days'))
     c.append(_base('s1_burnin', burn_in='2020-01-09 21:00', nd=9, weekday='THU',
                    bound='1 asset, 9 business days, weekly THU, burn-in exactly on the first rebalance instant'))
     c.append(_base('s1_bah', rebalance='buy_and_hold', start_tod='14:30', nd=5,
                    bound='1 asset, buy-and-hold from a 14:30 start, 5 business days'))
     if tier == 'thorough':
+        c.append(_base('s3_dynamic_signals', assets=['EQ:A', 'EQ:B', 'EQ:C'], universe='dynamic',
+                       entries={'EQ:A': '2020-01-01 00:00', 'EQ:B': '2020-01-07 00:00', 'EQ:C': '2020-01-07 00:00'}, alpha='sma_trend', nd=5, weight=4000, chunk=4,
+                       bound='3 assets (A from the start, B and C entering together on day 1), SMA(2) signals, trend-following alpha, weekly WED, 5 days'))
         c.append(_base('s1_ls', long_only=False, weights={'EQ:A': -1.0}, bound='1 asset short, long/short leverage 1.5, weekly WED, 8 days'))
         c.append(_base('s2_ls', assets=['EQ:A', 'EQ:B'], long_only=False, weights={'EQ:A': 0.5, 'EQ:B': -0.5}, weight=3000, chunk=4,
                        bound='2 assets long/short (0.5,-0.5), leverage 1.5, weekly WED, 8 days'))
@@ -57,6 +64,7 @@ def all_configs(tier):
 PROP_CONFIGS = {
     'C07': dict(quick=['s1_weekly', 's1_weekly_holiday', 's2_weekly', 's2_latestart'], thorough=None),
     'C08': dict(quick=['s1_weekly', 's1_bah'], thorough=['s1_weekly', 's1_bah', 's2_weekly', 's1_ls', 's2_ls', 's1_eom', 's1_daily', 's1_weekly_fri', 's1_zerofee_weekly_mon']),
+    'C18': dict(quick=['s2_weekly', 's2_dynamic_signals'], thorough=['s2_weekly', 's2_dynamic_signals', 's1_weekly', 's2_ls', 's3_dynamic_signals']),
     'C14': dict(quick=['s1_weekly', 's1_burnin', 's1_bah'], thorough=['s1_weekly', 's1_burnin', 's1_bah', 's1_burnin_between', 's1_eom', 's1_daily', 's2_weekly', 's1_weekly_fri']),
 }
 
@@ -68,13 +76,31 @@ def configs_for(prop, tier):
     for c in allc:
         if names is None or c['name'] in names:
             c = dict(c, oracle=prop, name='%s' % c['name'])
-            c['twins'] = [] if c['name'] == 's2_latestart' else {'C07': ['traded'], 'C08': ['traded'], 'C14': ['traded']}.get(prop, [])
+            c['twins'] = [] if c['name'] in ('s2_latestart',) else {'C07': ['traded'], 'C08': ['traded'], 'C14': ['traded'], 'C18': ['traded']}.get(prop, [])
             out.append(c)
     return out
 
 
 def make(cfg):
     return Session(cfg)
+
+
+class TrendAlpha:
+    """a user strategy in the style of examples/momentum_taa.py: long the assets trading above their moving average"""
+
+    def __init__(self, signals, universe, data_handler, lookback):
+        self.signals, self.universe, self.data_handler, self.lookback = signals, universe, data_handler, lookback
+
+    def __call__(self, dt):
+        members = self.universe.get_assets(dt)
+        weights = {}
+        for asset in self.signals['sma'].assets:
+            if asset not in members:
+                continue
+            price = self.data_handler.get_asset_latest_mid_price(dt, asset)
+            sma = self.signals['sma'](asset, self.lookback)
+            weights[asset] = 1.0 if price > sma else 0.0
+        return weights
 
 
 # ------------------------------------------------------------------------------------------------
@@ -122,7 +148,10 @@ class Session(Harness):
                     for oc in 'oc':
                         n = self.vname(a, oc, k, alt)
                         m[n] = mk.real(n)
-        return dict(m=m)
+        d = dict(m=m)
+        if self.prop == 'C18':
+            d['perm'] = [mk.flag('set_order_choice%d' % k) for k in range(NPERM)]
+        return d
 
     def assume(self, L, i):
         lo, hi = self.cfg['price_lo'], self.cfg['price_hi']
@@ -140,7 +169,7 @@ class Session(Harness):
             return i['m'][self.vname(a, oc, k)]
         return val
 
-    def backtest(self, val, truncate_after=None, session_hook=None):
+    def backtest(self, val, truncate_after=None, session_hook=None, reuse=None, warm=None, ids='a'):
         import pandas as pd, numpy as np, pytz
         from qstrader.data.daily_bar_csv import CSVDailyBarDataSource
         from qstrader.data.backtest_data_handler import BacktestDataHandler
@@ -164,15 +193,36 @@ class Session(Harness):
                 frames[a] = pd.DataFrame({'Open': pd.Series(o, dtype=object).values, 'Close': pd.Series(c, dtype=object).values}, index=idx)
             else:
                 frames[a] = pd.DataFrame({'Open': np.array(o, dtype=float), 'Close': np.array(c, dtype=float)}, index=idx)
-        CSVDailyBarDataSource.get_bid.cache_clear()
-        CSVDailyBarDataSource.get_ask.cache_clear()
-        ds = object.__new__(CSVDailyBarDataSource)
-        ds.csv_dir = None
-        ds.asset_type = None
-        ds.adjust_prices = False
-        ds.csv_symbols = None
-        ds.asset_bar_frames = frames
-        ds.asset_bid_ask_frames = ds._convert_bars_into_bid_ask_dfs()
+        if reuse is not None:
+            ds = reuse['ds']          # a data-source object that already served an earlier session (memo caches warm)
+        else:
+            CSVDailyBarDataSource.get_bid.cache_clear()
+            CSVDailyBarDataSource.get_ask.cache_clear()
+            ds = object.__new__(CSVDailyBarDataSource)
+            ds.csv_dir = None
+            ds.asset_type = None
+            ds.adjust_prices = False
+            ds.csv_symbols = None
+            ds.asset_bar_frames = frames
+            ds.asset_bid_ask_frames = ds._convert_bars_into_bid_ask_dfs()
+        if warm:
+            for (t_, a_) in warm:     # arbitrary earlier queries against the shared, memoised source
+                ds.get_bid(t_, a_)
+                ds.get_ask(t_, a_)
+        import qstrader.execution.order as _ordmod
+        counter = {'n': 0}
+
+        class _U:
+            def __init__(s, h):
+                s.hex = h
+
+        class _UUID:
+            @staticmethod
+            def uuid4():
+                counter['n'] += 1
+                return _U(('a%06d' % counter['n']) if ids == 'a' else ('z%06d' % (10 ** 6 - counter['n'])))
+        _saved_uuid = _ordmod.uuid
+        _ordmod.uuid = _UUID
         if cfg['universe'] == 'static':
             uni = StaticUniverse(list(self.A))
         else:
@@ -187,8 +237,15 @@ class Session(Harness):
                 rec['dh_calls'].append((rec['cur'], dt, a, _m))
                 return _orig(dt, a)
             setattr(dh, meth, spy)
+        signals = None
         if cfg['alpha'] == 'fixed':
             alpha = FixedSignalsAlphaModel(dict(cfg['weights']))
+        elif cfg['alpha'] == 'sma_trend':
+            from qstrader.signals.sma import SMASignal
+            from qstrader.signals.signals_collection import SignalsCollection
+            start_ = pd.Timestamp('%s %s' % (cfg['start'], cfg['start_tod']), tz=pytz.UTC)
+            signals = SignalsCollection({'sma': SMASignal(start_, uni, [2])}, dh)
+            alpha = TrendAlpha(signals, uni, dh, 2)
         else:
             alpha = SingleSignalAlphaModel(uni, signal=1.0)
         start = pd.Timestamp('%s %s' % (cfg['start'], cfg['start_tod']), tz=pytz.UTC)
@@ -203,6 +260,8 @@ class Session(Harness):
             kw['gross_leverage'] = cfg['leverage']
         if cfg['burn_in']:
             kw['burn_in_dt'] = pd.Timestamp(cfg['burn_in'], tz=pytz.UTC)
+        if signals is not None:
+            kw['signals'] = signals
         s = BacktestTradingSession(start, end, uni, alpha, **kw)
         port = s.broker.portfolios[PID]
         orig_tx = port.transact_asset
@@ -227,11 +286,14 @@ class Session(Harness):
         except ValueError as e:
             e.from_repo = True
             rec['err'] = (rec['cur'], type(e).__name__)
+        finally:
+            _ordmod.uuid = _saved_uuid
         hist = [dict(dt=h.dt, type=h.type, asset=(h.description.split()[2] if h.type == 'asset_transaction' else None),
                      debit=h.debit, credit=h.credit, balance=h.balance) for h in port.history]
         return dict(equity=list(s.equity_curve), history=hist, fills=rec['fills'], alloc=list(s.target_allocations), cash=port.cash,
                     holdings={a: d['quantity'] for a, d in s.broker.get_portfolio_as_dict(PID).items()}, err=rec['err'],
-                    dh_calls=rec['dh_calls'], schedule=list(s.rebalance_schedule))
+                    dh_calls=rec['dh_calls'], schedule=list(s.rebalance_schedule), ds=ds,
+                    alloc_cols=[[k for k in a_.keys()] for a_ in s.target_allocations])
 
     def cuts(self):
         c = self.cfg.get('cuts')
@@ -243,6 +305,8 @@ class Session(Harness):
         if core.EX is not None:
             out['base_marks'] = list(core.EX.marks)
             out['base_pc_len'] = len(core.EX.pc)
+        if self.prop == 'C18':
+            out['variants'] = self.c18_variants(i, base)
         if self.two_markets:
             # later bars removed altogether: the same session on frames truncated after day T (also run symbolically)
             out['trunc'] = {T: self.backtest(self.market(i), truncate_after=T) for T in self.cuts()}
@@ -250,6 +314,88 @@ class Session(Harness):
                 # concrete replay: the alternative futures are really run
                 out['alt'] = {T: self.backtest(self.market(i, cut=T)) for T in range(self.cfg['nd'] - 1)}
         return out
+
+    # ---- C18: the same backtest again under every source of run-to-run variation the code base is exposed to
+    def c18_variants(self, i, base):
+        import pandas as pd
+        import qstrader.portcon.pcm as pcm_mod
+        import qstrader.signals.signal as sig_mod
+        flags = list(i['perm'])
+        state = {'k': 0}
+
+        def choose(n):
+            """an arbitrary index < n decided by the next input booleans"""
+            idx = 0
+            for j in range(n - 1):
+                if state['k'] >= len(flags):
+                    break
+                b = bool(flags[state['k']])
+                state['k'] += 1
+                if b:
+                    idx = j + 1
+                else:
+                    break
+            return idx
+
+        class NondetSet(set):
+            """a set whose iteration order is arbitrary (what another string-hash seed can change)"""
+
+            def __iter__(self):
+                items = sorted(set.__iter__(self))
+                out_ = []
+                while items:
+                    out_.append(items.pop(choose(len(items))))
+                return iter(out_)
+
+            def union(self, *o):
+                return NondetSet(set.union(self, *o))
+
+            def __sub__(self, o):
+                return NondetSet(set.__sub__(self, o))
+
+            def __or__(self, o):
+                return NondetSet(set.__or__(self, o))
+        v = {}
+        # (1) same process, again, data source already warm from the first session and from arbitrary earlier queries
+        warm = [(pd.Timestamp('%s 21:00' % d.isoformat(), tz='UTC'), a) for d in self.days[::2] for a in self.A] + \
+               [(pd.Timestamp('%s 03:17' % self.days[1].isoformat(), tz='UTC'), self.A[0])]
+        v['warm_cache'] = self.backtest(self.market(i), reuse=base, warm=warm)
+        # (2) other order ids (sorting differently) and arbitrary set iteration orders
+        saved = (pcm_mod.__dict__.get('set', None), sig_mod.__dict__.get('set', None))
+        pcm_mod.set = NondetSet
+        sig_mod.set = NondetSet
+        try:
+            v['set_order_and_ids'] = self.backtest(self.market(i), ids='z')
+        finally:
+            for m_, sv in ((pcm_mod, saved[0]), (sig_mod, saved[1])):
+                if sv is None:
+                    try:
+                        delattr(m_, 'set')
+                    except AttributeError:
+                        pass
+                else:
+                    m_.set = sv
+        return v
+
+    def oracle_c18(self, L, i, o):
+        base = o['base']
+        obl = []
+        T = self.cfg['nd']
+        for name, w in o['variants'].items():
+            a, b = self.items_upto(base, T), self.items_upto(w, T)
+            same_shape = len(a) == len(b) and all(la == lb for (la, _), (lb, _) in zip(a, b))
+            obl.append(('%s:same_fills_equity_allocations_and_errors' % name, L.bool(not same_shape)))
+            if same_shape:
+                diffs = []
+                for (la, va), (lb, vb) in zip(a, b):
+                    if isinstance(va, core.Sym) or isinstance(vb, core.Sym):
+                        diffs.append((la, L.ne(va, vb)))
+                    elif va != vb and not (va != va and vb != vb):
+                        diffs.append((la, L.true))
+                for la, f in diffs:
+                    obl.append(('%s:%s' % (name, la.split('@')[0]), f))
+            obl.append(('%s:allocation_columns_in_the_same_order' % name, L.bool(base['alloc_cols'] != w['alloc_cols'])))
+        return obl
 
     # ---- helpers for oracles
     def day_of(self, dt):
@@ -288,7 +434,7 @@ class Session(Harness):
     def oracle(self, L, i, out):
         if out.kind != 'ok':
             return [('session_runs', L.true)]
-        f = {'C07': self.oracle_c07, 'C14': self.oracle_c14, 'C08': self.oracle_c08}[self.prop]
+        f = {'C07': self.oracle_c07, 'C14': self.oracle_c14, 'C08': self.oracle_c08, 'C18': self.oracle_c18}[self.prop]
         return f(L, i, out.value)
 
     def oracle_c07(self, L, i, o):
